@@ -30,6 +30,13 @@ def _mag(num):
     return int(floor(log10(abs(num))))
 
 
+def _mul_pow10(value, exponent):
+    # value * 10**exponent, also when 10**exponent itself would overflow a float
+    if exponent > 300:
+        return value * 10 ** 300 * 10 ** (exponent - 300)
+    return value * 10 ** exponent
+
+
 def _float_str_w_uncert(x, xe, precision=2):
     """Prints uncertain number with parenthesis
 
@@ -71,11 +78,11 @@ def _float_str_w_uncert(x, xe, precision=2):
 
     # uncertainty
     un_exp = xe_exp - precision + 1
-    un_int = round(xe * 10 ** (-un_exp))
+    un_int = round(_mul_pow10(xe, -un_exp))
 
     # nominal value
     no_exp = un_exp
-    no_int = round(x * 10 ** (-no_exp))
+    no_int = round(_mul_pow10(x, -no_exp))
 
     # format - nom(unc)exp
     fieldw = x_exp - no_exp
